@@ -113,7 +113,11 @@ def arith_items(rng, n):
             cx = cx + codes(fxm) + codes(fxm); cy = cy + codes(fym) + codes(fym)
             items.append((op, fxm, cx, (3,), fym, cy, (3,), rng.choice(['operator', 'func']), {}))
         else:
-            items.append((op, fxm, cx, None, fym, cy, None, rng.choice(['operator', 'func', 'numpy']), {'_build': 'indexed'} if rng.random() < 0.35 else {}))
+            cfg = {'_build': 'indexed'} if rng.random() < 0.35 else {}
+            if not cfg and rng.random() < 0.3:
+                # both operands configured with a larger n_word_max (the width at which the arithmetic must leave int64 does not depend on it)
+                m = rng.choice([65, 128, 256]); cfg = {'n_word_max': m, '_ycfg': {'n_word_max': m}}
+            items.append((op, fxm, cx, None, fym, cy, None, rng.choice(['operator', 'func', 'numpy']), cfg))
     return items
 
 def arith(rng, tier, nshards, res):
